@@ -387,15 +387,39 @@ async fn run_prog(sh: Rc<Shared>, conn: usize, idx: usize, mut req: Request, pro
                 }
             }
             Step::MovePayloadToTask => {
+                // what applications do with `actix_web::rt::spawn`: the body is consumed by another
+                // task while the handler awaits its completion; the payload channel's own wakers
+                // are then the only thing connecting the reader and the connection task
                 if let Some(mut p) = payload.take() {
                     let sh2 = sh.clone();
+                    let done: Rc<RefCell<(bool, Option<Waker>)>> = Rc::new(RefCell::new((false, None)));
+                    let done2 = done.clone();
                     sh.spawn_q.borrow_mut().push((
                         format!("reader-{}-{}", conn, idx),
                         Box::pin(async move {
                             read_payload(sh2, conn, idx, &mut p, None, false).await;
+                            drop(p);
+                            let w = {
+                                let mut d = done2.borrow_mut();
+                                d.0 = true;
+                                d.1.take()
+                            };
+                            if let Some(w) = w {
+                                w.wake();
+                            }
                         }),
                     ));
                     bump(&mut sh.stats.borrow_mut(), "payload_moved_to_task");
+                    std::future::poll_fn(|cx| {
+                        let mut d = done.borrow_mut();
+                        if d.0 {
+                            Poll::Ready(())
+                        } else {
+                            d.1 = Some(cx.waker().clone());
+                            Poll::Pending
+                        }
+                    })
+                    .await;
                 }
             }
             Step::Gate(g) => {
@@ -929,15 +953,22 @@ async fn run_h1_inner(sc: H1Scenario, tape: Tape, narr: bool) -> H1Out {
             if conns_done && ex.unfinished().is_empty() {
                 break;
             }
-            let deadline = next_due.unwrap_or(sc.horizon_ms).min(sc.horizon_ms);
-            if now >= sc.horizon_ms {
-                quiescent = true;
-                break;
-            }
-            let r = ex.idle_until(Duration::from_millis(deadline)).await;
-            if r == Idle::Deadline && deadline >= sc.horizon_ms {
-                quiescent = true;
-                break;
+            // `horizon_ms` is a quiet period: with an environment event still to come the loop
+            // waits for it; with none left, nothing but the system's own timers can cause
+            // activity, and if none does for `horizon_ms` of virtual time the run is quiescent.
+            const ABS_CAP_MS: u64 = 3_600_000;
+            match next_due {
+                Some(t) if t < ABS_CAP_MS => {
+                    ex.idle_until(Duration::from_millis(t)).await;
+                }
+                _ => {
+                    let deadline = now + sc.horizon_ms;
+                    let r = ex.idle_until(Duration::from_millis(deadline)).await;
+                    if r == Idle::Deadline {
+                        quiescent = true;
+                        break;
+                    }
+                }
             }
             continue;
         }
